@@ -25,7 +25,7 @@ HARNESSES = {
 }
 
 _c10_base = two_flavour('h_lu', 1000, 3000, 12000, 60000)
-_c11_base = two_flavour('h_lu', 700, 2100, 12000, 48000)
+_c11_base = two_flavour('h_lu', 2500, 9000, 40000, 160000)
 
 
 def _with_ext(prop, base):
@@ -71,13 +71,13 @@ def _c10_minima(tier):
 
 def _c11_minima(tier):
     th = tier == 'thorough'
-    m = {'c11.truth.regular': 30000 if th else 1500, 'c11.truth.singular': 4000 if th else 200,
-         'c11.regular_but_double_rounding_singular': 2000 if th else 100, 'c11.singular_but_double_rounding_regular': 500 if th else 25,
-         'c11.bits.gt128': 5000 if th else 250, 'c11.sparse_result.setup_checked': 20000 if th else 1000,
-         'distinct:nontrivial': 1500 if th else 300}
+    m = {'c11.truth.regular': 100000 if th else 6000, 'c11.truth.singular': 12000 if th else 700,
+         'c11.regular_but_double_rounding_singular': 6000 if th else 400, 'c11.singular_but_double_rounding_regular': 4000 if th else 250,
+         'c11.bits.gt128': 20000 if th else 1000, 'c11.sparse_result.setup_checked': 200000 if th else 10000,
+         'c11.multi_rhs_4update_cases': 10000 if th else 500, 'distinct:nontrivial': 3000 if th else 1000}
     for v in ('solveRight.dense', 'solveRight.sparse', 'solveLeft.dense', 'solveLeft.sparse', 'solveLeft2.x', 'solveLeft3.x', 'solveRight4update'):
         for ut in ('FT', 'ETA'):
-            m['c11.eval.%s.%s' % (v, ut)] = 10000 if th else 500
+            m['c11.eval.%s.%s' % (v, ut)] = 50000 if th else 3000
     return m
 
 
